@@ -549,6 +549,7 @@ func cmdCheck(args []string) {
 				"explanation":              pc.Explanation,
 				"arith":                    "arith int: mathematical Int with explicit mod 2^w wrap for 8/16/32-bit types",
 				"timeouts_ms":              map[string]int{"fast": cfg.QuickMs, "full": cfg.FullMs},
+				"source_tree":              sourceTree(*repo),
 			},
 			"assumptions": assumptions,
 			"wall_s":      time.Since(t0).Seconds(),
@@ -729,4 +730,23 @@ func runCFBWorkers(repo, tier string) *cfbShardResult {
 		}
 	}
 	return total
+}
+
+// sourceTree records which tree the obligations were generated from: the commit and every file
+// that differs from it (so evidence produced while a change was applied says so).
+func sourceTree(repo string) map[string]any {
+	out := map[string]any{"dir": repo}
+	if b, err := exec.Command("git", "-C", repo, "rev-parse", "HEAD").Output(); err == nil {
+		out["head"] = strings.TrimSpace(string(b))
+	}
+	if b, err := exec.Command("git", "-C", repo, "status", "--porcelain").Output(); err == nil {
+		mod := []string{}
+		for _, l := range strings.Split(strings.TrimSpace(string(b)), "\n") {
+			if l != "" {
+				mod = append(mod, l)
+			}
+		}
+		out["differs_from_head"] = mod
+	}
+	return out
 }
